@@ -43,8 +43,14 @@ def main():
     broken = []          # (obligation, detail)
     with common.Lock():
         gen_problems = gen.run()
+        # a generator that fails leaves a file that does not compile, so every Coq file that depends on it breaks with it;
+        # a property none of whose statements, proofs, model or correspondence files depends on that file is not concerned
+        needed = common.gen_files_needed(prop, mod.MODEL_TARGETS)
+        gen_blind = False
         for f, e in gen_problems:
-            broken.append(('gen:' + f, e))
+            if needed is None or f in needed:
+                broken.append(('gen:' + f, e))
+                gen_blind = True
         if tier == 'thorough' and os.environ.get('VERIF_NO_CLEAN') != '1':
             for t in ['props/%s' % prop] + [x[:-3] for x in getattr(mod, 'CLEAN', [])]:
                 for ext in ('.vo', '.vok', '.vos', '.glob'):
@@ -118,10 +124,19 @@ def main():
         else:
             lines.append('NOTE: known finding %s no longer reproduces on this tree' % fid)
 
+    blind = bool(common.HARNESS_ERRORS)      # (a failing translator does not blind the oracles: they look at the real code)
+    if blind:
+        # the instrumentation itself failed (a private field it reads is gone) or the model could not be regenerated from
+        # the source: what the oracles saw in this run is not evidence about the library, so no failing input is
+        # claimed; the tie to the code is broken and that is what is reported
+        if common.HARNESS_ERRORS:
+            broken.append(('harness:observation', 'the harness can no longer observe the implementation: ' +
+                           '; '.join(common.HARNESS_ERRORS[:5])))
+        unlisted = []
     if broken or unlisted:
         # search for a concrete failing input on the implementation
         cands = list(unlisted)
-        if not cands and hasattr(mod, 'search'):
+        if not cands and hasattr(mod, 'search') and not blind:
             budget = 600 if ctx.thorough else 30
             try:
                 cands = [c for c in mod.search(ctx, budget) if classify(c) not in kf]
